@@ -275,4 +275,49 @@ func TestVerifC01RedisBenignTable(t *testing.T) {
 		}
 		m.Case("mixed-benign", true)
 	}
+	// sustained mix of benign and failing outcomes below the trip threshold (outcomes counted by what the
+	// package's predicate answered, as seen by the spy): nothing may be rejected while total-5 <= 1.5*accepts
+	var failingOps []op
+	for _, o := range ops {
+		if o.name == "wrong-type-reply" || o.name == "expired-context:context.DeadlineExceeded" {
+			failingOps = append(failingOps, o)
+		}
+	}
+	for _, share := range []int{10, 30} {
+		if len(benignOps) == 0 || len(failingOps) == 0 {
+			break
+		}
+		e := newEnv()
+		if e == nil {
+			return
+		}
+		n := vk.N(3000, 20000)
+		var acc, tot int64
+		okRow := true
+		for i := 0; i < n; i++ {
+			o := benignOps[r.Intn(len(benignOps))]
+			if r.Intn(100) < share {
+				o = failingOps[r.Intn(len(failingOps))]
+			}
+			must := 2*(tot-5) <= 3*acc
+			before, vb := e.spy.ran, e.spy.verdicts
+			got := o.do(e)
+			m.Count("calls_mixed_success_failure", 1)
+			if e.spy.ran == before {
+				if must {
+					m.Violate("C01:mixed:redis:rejected-below-threshold", fmt.Sprintf("case=%d;%d%% failing commands among benign ones on one Redis", 200+share, share), "call #%d (%s) short-circuited (%v) although the %d admitted calls so far were judged %d acceptable / %d not by the package's predicate, i.e. total-5 <= 1.5*successes", i, o.name, got, tot, acc, tot-acc)
+					okRow = false
+					break
+				}
+				continue
+			}
+			if e.spy.verdicts > vb {
+				tot++
+				if e.spy.lastAcc {
+					acc++
+				}
+			}
+		}
+		m.Case(fmt.Sprint("mixed-success-failure", share, okRow), okRow && tot > acc)
+	}
 }
